@@ -1,46 +1,15 @@
 /-
-Record-level round trip for the fixed-width record kinds (C01's per-record premise): for a layout whose
-regenerated `Parse()` is straight-line over the columns its regenerated `String()` writes
-(`SimpleLayout`, decidable, established by `decide` per record kind), parsing the rendering of a
-canonical record value gives the record back.
+Record-level round trip (C01's per-record premise), for every record kind - fixed width or with
+variable-length sections (records 27, 34, 52): when the regenerated `Parse()` is straight-line over the
+columns the regenerated `String()` writes (`LayoutOK`, a decidable check established by `decide` per
+record kind: every slice of `Parse()` is, symbolically, the span of the written field it assigns),
+parsing the rendering of a canonical record value gives the record back.
 -/
 import IclModel.Lemmas.Render
 import IclModel.Lemmas.InverseStr
 namespace Icl
 
-/-- the write field that starts at byte offset `off` of a fixed layout -/
-def fieldAt : List WField → Nat → Option WField
-  | [], _ => none
-  | g :: r, off => if off = 0 then some g else if g.width ≤ off ∧ 0 < g.width then fieldAt r (off - g.width) else none
-
-/-- the decoder that inverts a getter -/
-def pkOf : Conv → Option PKind
-  | .alpha | .nbsm | .zstr => some .str
-  | .numeric | .numericBlankNonPos => some .num
-  | .date | .dateBlankZero => some .date
-  | .time => some .time
-  | _ => none
-
-/-- a fixed layout whose `Parse()` is straight-line: length guards the full record passes, the record
-type, constants, and one decode per written field, from exactly the columns it is written to -/
-def stmtOK (ws : List WField) (W : Nat) : PStmt → Bool
-  | .guardRunes ne n => if ne then n == W else decide (n ≤ W)
-  | .guardBytes n => decide (n ≤ W)
-  | .setType => true
-  | .lit _ _ => true
-  | .assign dst lo hi k _ =>
-    lo.vars.isEmpty && hi.vars.isEmpty &&
-    (match fieldAt ws lo.c with
-     | some f => f.src == dst && hi.c == lo.c + f.width && pkOf f.conv == some k
-     | none => false)
-  | _ => false
-
-def SimpleLayout (L : RecLayout) : Bool :=
-  AllWf L.write && AllFixed L.write && L.parse.all (stmtOK L.write (fixedWidth L.write))
-
-end Icl
-
-namespace Icl
+/-! ### slices of concatenations -/
 
 theorem slice?_append_right (a b : Bytes) (lo hi : Nat) (h : a.length ≤ lo) (hh : lo ≤ hi) :
     slice? (a ++ b) (lo : Int) (hi : Int) = slice? b ((lo - a.length : Nat) : Int) ((hi - a.length : Nat) : Int) := by
@@ -68,57 +37,221 @@ theorem slice?_prefix (a b : Bytes) (n : Nat) (h : a.length = n) :
   rw [if_pos this]
   simp [← h]
 
-theorem fixed_len (b64 : Bytes → Option Bytes) (g : WField) (v : Vals) (hw : WfW g = true)
-    (hf : (FixedConv g.conv && !g.imageOnly) = true) (ht : TypeSet v) : (renderField b64 g v).length = g.width := by
-  rw [renderField_length b64 g v hw ht]
-  simp only [Bool.and_eq_true] at hf
-  unfold lenOf
-  cases hc : g.conv <;> simp [hc, FixedConv] at hf ⊢
+theorem slice?_mid (pre mid post : Bytes) :
+    slice? (pre ++ mid ++ post) (pre.length : Int) ((pre.length + mid.length : Nat) : Int) = some mid := by
+  rw [List.append_assoc, slice?_append_right pre (mid ++ post) pre.length (pre.length + mid.length) (Nat.le_refl _) (by omega)]
+  have e1 : pre.length - pre.length = 0 := by omega
+  have e2 : pre.length + mid.length - pre.length = mid.length := by omega
+  rw [e1, e2]
+  exact slice?_prefix mid post mid.length rfl
 
-/-- the bytes of the field that starts at `off`: exactly its rendering -/
-theorem slice_fieldAt (b64 : Bytes → Option Bytes) (v : Vals) (ht : TypeSet v) :
-    ∀ (ws : List WField) (off : Nat) (f : WField), AllWf ws = true → AllFixed ws = true → fieldAt ws off = some f →
-      slice? (render b64 ws true v) (off : Int) ((off + f.width : Nat) : Int) = some (renderField b64 f v)
-  | [], off, f, _, _, h => by simp [fieldAt] at h
-  | g :: r, off, f, hw, hf, h => by
+/-! ### symbolic offsets: fixed columns plus the lengths announced by named members -/
+
+def isVarConv : Conv → Bool
+  | .alphaVar | .bytesVar | .image => true
+  | _ => false
+
+structure SymOff where
+  c : Nat
+  lens : List String
+deriving DecidableEq, Repr, Inhabited
+
+/-- bytes of a variable section whose length member is `lf` (0 when the announced length is not a valid size) -/
+def widthOfLen (v : Vals) (lf : String) : Nat := (varWidth v lf).getD 0
+
+def sumW (v : Vals) : List String → Nat
+  | [] => 0
+  | lf :: r => widthOfLen v lf + sumW v r
+
+theorem sumW_append (v : Vals) (a b : List String) : sumW v (a ++ b) = sumW v a + sumW v b := by
+  induction a with
+  | nil => simp [sumW]
+  | cons x r ih => simp [sumW, ih]; omega
+
+def SymOff.val (v : Vals) (o : SymOff) : Nat := o.c + sumW v o.lens
+
+/-- the offset behind field `f` that starts at `o` -/
+def SymOff.next (o : SymOff) (f : WField) : SymOff :=
+  if isVarConv f.conv then ⟨o.c, o.lens ++ [f.lenField]⟩ else ⟨o.c + f.width, o.lens⟩
+
+/-- every written field with the symbolic offset it starts at -/
+def spans : List WField → SymOff → List (SymOff × WField)
+  | [], _ => []
+  | f :: r, o => (o, f) :: spans r (o.next f)
+
+/-- a field's length in bytes is what its symbolic span says (fixed converters: the width; variable
+sections: the announced length - for the image, when it is not base64 text) -/
+def LenIsSym (b64 : Bytes → Option Bytes) (f : WField) (v : Vals) : Prop :=
+  lenOf b64 f v = if isVarConv f.conv then widthOfLen v f.lenField else f.width
+
+theorem next_val (b64 : Bytes → Option Bytes) (o : SymOff) (f : WField) (v : Vals) (h : LenIsSym b64 f v) :
+    (o.next f).val v = o.val v + lenOf b64 f v := by
+  unfold LenIsSym at h
+  unfold SymOff.next SymOff.val
+  by_cases hv : isVarConv f.conv = true
+  · simp only [hv, if_true] at h ⊢
+    simp only [sumW_append, sumW, h]; omega
+  · simp only [hv, if_false] at h ⊢
+    rw [h]; simp only [Bool.false_eq_true, if_false]; omega
+
+/-- **the span lemma**: a field listed at symbolic offset `o'` occupies, in the rendering, exactly the
+bytes from `o'` to the offset behind it -/
+theorem span_split (b64 : Bytes → Option Bytes) (v : Vals) (ht : TypeSet v) :
+    ∀ (ws : List WField) (o o' : SymOff) (f : WField), AllWf ws = true → (∀ g ∈ ws, LenIsSym b64 g v) →
+      (o', f) ∈ spans ws o →
+      ∃ pre post, render b64 ws true v = pre ++ renderField b64 f v ++ post ∧ o.val v + pre.length = o'.val v ∧
+        (o'.next f).val v = o'.val v + (renderField b64 f v).length
+  | [], _, _, _, _, _, h => by simp [spans] at h
+  | g :: r, o, o', f, hw, hl, h => by
     simp only [AllWf, List.all_cons, Bool.and_eq_true] at hw
-    simp only [AllFixed, List.all_cons] at hf
-    rw [Bool.and_eq_true] at hf
-    have hlen := fixed_len b64 g v hw.1 hf.1 ht
-    have hio : g.imageOnly = false := by
-      have := hf.1; simp only [Bool.and_eq_true, Bool.not_eq_true'] at this; exact this.2
     have hr : render b64 (g :: r) true v = renderField b64 g v ++ render b64 r true v := by
-      simp [render, hio]
-    rw [hr]
-    unfold fieldAt at h
-    by_cases h0 : off = 0
-    · subst h0
-      simp only [if_true, Option.some.injEq] at h
-      subst h
-      have := slice?_prefix (renderField b64 g v) (render b64 r true v) g.width hlen
-      simpa using this
-    · simp only [h0, if_false] at h
-      split at h
-      · rename_i hge
-        have ih := slice_fieldAt b64 v ht r (off - g.width) f (by simpa [AllWf] using hw.2) (by simpa [AllFixed] using hf.2) h
-        rw [slice?_append_right _ _ off (off + f.width) (by omega) (by omega)]
-        rw [hlen]
-        have e : off + f.width - g.width = off - g.width + f.width := by omega
-        rw [e]
-        exact ih
-      · cases h
+      simp [render]
+    have hlg := renderField_length b64 g v hw.1 ht
+    simp only [spans, List.mem_cons, Prod.mk.injEq] at h
+    rcases h with ⟨ho, hf⟩ | h
+    · subst ho; subst hf
+      refine ⟨[], render b64 r true v, ?_, ?_, ?_⟩
+      · simp [hr]
+      · simp
+      · rw [next_val b64 o' f v (hl f (by simp)), hlg]
+    · obtain ⟨pre, post, h1, h2, h3⟩ := span_split b64 v ht r (o.next g) o' f (by simpa [AllWf] using hw.2)
+        (fun x hx => hl x (by simp [hx])) h
+      refine ⟨renderField b64 g v ++ pre, post, ?_, ?_, h3⟩
+      · rw [hr, h1]; simp [List.append_assoc]
+      · rw [next_val b64 o g v (hl g (by simp))] at h2
+        simp only [List.length_append]; omega
 
-/-- what a canonical value of a written field is: the getter's rendering decodes back to it -/
-def CanonField (f : WField) (v : Vals) : Prop :=
+/-- the offset behind the last field -/
+def endOff : List WField → SymOff → SymOff
+  | [], o => o
+  | f :: r, o => endOff r (o.next f)
+
+theorem endOff_val (b64 : Bytes → Option Bytes) (v : Vals) (ht : TypeSet v) :
+    ∀ (ws : List WField) (o : SymOff), AllWf ws = true → (∀ g ∈ ws, LenIsSym b64 g v) →
+      (endOff ws o).val v = o.val v + (render b64 ws true v).length
+  | [], o, _, _ => by simp [endOff, render]
+  | g :: r, o, hw, hl => by
+    simp only [AllWf, List.all_cons, Bool.and_eq_true] at hw
+    have hr : render b64 (g :: r) true v = renderField b64 g v ++ render b64 r true v := by
+      simp [render]
+    have ih := endOff_val b64 v ht r (o.next g) (by simpa [AllWf] using hw.2) (fun x hx => hl x (by simp [hx]))
+    simp only [endOff, ih, hr, List.length_append, next_val b64 o g v (hl g (by simp)),
+      renderField_length b64 g v hw.1 ht]
+    omega
+
+/-- the length members a span's offset mentions are length members of variable sections of the table -/
+theorem spans_lens : ∀ (ws : List WField) (o o' : SymOff) (f : WField), (o', f) ∈ spans ws o →
+    (∀ lf ∈ o'.lens, lf ∈ o.lens ∨ ∃ g ∈ ws, isVarConv g.conv = true ∧ g.lenField = lf) ∧
+    (∀ lf ∈ (o'.next f).lens, lf ∈ o.lens ∨ ∃ g ∈ ws, isVarConv g.conv = true ∧ g.lenField = lf)
+  | [], _, _, _, h => by simp [spans] at h
+  | g :: r, o, o', f, h => by
+    simp only [spans, List.mem_cons, Prod.mk.injEq] at h
+    rcases h with ⟨ho, hf⟩ | h
+    · subst ho; subst hf
+      refine ⟨fun lf h => Or.inl h, ?_⟩
+      intro lf hlf
+      unfold SymOff.next at hlf
+      by_cases hv : isVarConv f.conv = true
+      · simp only [hv, if_true, List.mem_append, List.mem_singleton] at hlf
+        rcases hlf with h | h
+        · exact Or.inl h
+        · exact Or.inr ⟨f, by simp, hv, h.symm⟩
+      · simp only [hv, if_false] at hlf
+        simp only [Bool.false_eq_true, if_false] at hlf
+        exact Or.inl hlf
+    · obtain ⟨h1, h2⟩ := spans_lens r (o.next g) o' f h
+      have lift : ∀ lf, (lf ∈ (o.next g).lens ∨ ∃ x ∈ r, isVarConv x.conv = true ∧ x.lenField = lf) →
+          (lf ∈ o.lens ∨ ∃ x ∈ g :: r, isVarConv x.conv = true ∧ x.lenField = lf) := by
+        intro lf hx
+        rcases hx with hx | ⟨x, hxr, hxv, hxl⟩
+        · unfold SymOff.next at hx
+          by_cases hv : isVarConv g.conv = true
+          · simp only [hv, if_true, List.mem_append, List.mem_singleton] at hx
+            rcases hx with hx | hx
+            · exact Or.inl hx
+            · exact Or.inr ⟨g, by simp, hv, hx.symm⟩
+          · simp only [hv, if_false] at hx
+            simp only [Bool.false_eq_true, if_false] at hx
+            exact Or.inl hx
+        · exact Or.inr ⟨x, by simp [hxr], hxv, hxl⟩
+      exact ⟨fun lf hlf => lift lf (h1 lf hlf), fun lf hlf => lift lf (h2 lf hlf)⟩
+
+theorem parseNum_blanks (w : Nat) : parseNum (blanks w) = 0 := by
+  unfold parseNum blanks
+  have := trimSpace_padded [] w 0 (Or.inl rfl)
+  simp only [List.append_nil, List.replicate_zero] at this
+  rw [this]
+  rfl
+
+theorem parseDate_blanks8 : parseDate (blanks 8) = Date.zero := by decide
+
+
+theorem Vals.assign_eq (acc : Vals) (dst : String) (k : PKind) (x : Bytes) :
+    acc.assign dst k x =
+      match k with
+      | .num => acc.setI dst (parseNum x)
+      | .str => acc.setS dst (parseStr x)
+      | .date => acc.setD dst (parseDate x)
+      | .time => acc.setT dst (parseTime x)
+      | .raw => acc.setS dst x
+      | .bytes => acc.setS dst x := by
+  cases k <;> rfl
+
+/-! ### canonical field values -/
+
+/-- the announced length of a variable section is a number `Parse()` and `String()` read alike -/
+def LenOK (v : Vals) (lf : String) : Prop := 0 ≤ parseNum (v.s lf) ∧ parseNum (v.s lf) < (maxGrow : Int)
+
+theorem widthOfLen_of_lenOK (v : Vals) (lf : String) (h : LenOK v lf) : (widthOfLen v lf : Int) = parseNum (v.s lf) := by
+  unfold widthOfLen varWidth validSizeInt
+  simp only
+  by_cases h0 : 0 < parseNum (v.s lf)
+  · have : (decide (0 < parseNum (v.s lf)) && decide (parseNum (v.s lf) < (maxGrow : Int))) = true := by
+      simp [h0, h.2]
+    simp only [this, if_true, Option.getD_some]
+    omega
+  · have : (decide (0 < parseNum (v.s lf)) && decide (parseNum (v.s lf) < (maxGrow : Int))) = false := by
+      simp [h0]
+    simp only [this, Bool.false_eq_true, if_false, Option.getD_none]
+    have := h.1
+    omega
+
+/-- which decoder `Parse()` may use for a getter's column (`raws`: string members stored untrimmed) -/
+def compat (raws : List String) (f : WField) : PKind → Bool
+  | .str => (f.conv == .alpha && !raws.contains f.src) || f.conv == .nbsm || f.conv == .zstr || f.conv == .alphaVar
+  | .raw => f.conv == .alpha && raws.contains f.src
+  | .num => f.conv == .numeric || f.conv == .numericBlankNonPos
+  | .date => f.conv == .date || f.conv == .dateBlankZero
+  | .time => f.conv == .time
+  | .bytes => f.conv == .bytesVar || f.conv == .image
+
+/-- what a canonical value of a written field is: it fits its column and the column's decoder returns it -/
+def CanonField (b64 : Bytes → Option Bytes) (raws : List String) (f : WField) (v : Vals) : Prop :=
   match f.conv with
-  | .alpha | .nbsm => Trimmed (v.s f.src) ∧ (v.s f.src).length ≤ f.width
+  | .alpha => if raws.contains f.src then (v.s f.src).length = f.width else Trimmed (v.s f.src) ∧ (v.s f.src).length ≤ f.width
+  | .nbsm => Trimmed (v.s f.src) ∧ (v.s f.src).length ≤ f.width
   | .zstr => Trimmed (v.s f.src) ∧ (v.s f.src).length = f.width
   | .numeric => 0 ≤ v.i f.src ∧ v.i f.src < 9223372036854775808 ∧ (itoa (v.i f.src)).length ≤ f.width
   | .numericBlankNonPos => 0 ≤ v.i f.src ∧ v.i f.src < 9223372036854775808 ∧ (itoa (v.i f.src)).length ≤ f.width
   | .date => (v.d f.src).valid = true
   | .dateBlankZero => (v.d f.src).valid = true
   | .time => (v.t f.src).valid = true ∧ (v.t f.src).z = false
+  | .alphaVar => LenOK v f.lenField ∧ Trimmed (v.s f.src) ∧ (v.s f.src).length ≤ widthOfLen v f.lenField
+  | .bytesVar => LenOK v f.lenField ∧ (v.s f.src).length = widthOfLen v f.lenField
+  | .image => LenOK v f.lenField ∧ b64 (v.s f.src) = none ∧ (v.s f.src).length = widthOfLen v f.lenField
   | _ => True
+
+theorem canon_lenIsSym (b64 : Bytes → Option Bytes) (raws : List String) (f : WField) (v : Vals)
+    (h : CanonField b64 raws f v) : LenIsSym b64 f v := by
+  unfold CanonField at h
+  unfold LenIsSym lenOf widthOfLen
+  cases hc : f.conv <;> simp only [hc, isVarConv] at h ⊢ <;> simp
+  rw [h.2.1]
+
+theorem canon_lenOK (b64 : Bytes → Option Bytes) (raws : List String) (f : WField) (v : Vals)
+    (h : CanonField b64 raws f v) (hv : isVarConv f.conv = true) : LenOK v f.lenField := by
+  unfold CanonField at h
+  cases hc : f.conv <;> simp only [hc, isVarConv] at h hv <;> first | exact h.1 | cases hv
 
 /-- the effect of a parse statement when the record decodes to `v`: the decoded member takes `v`'s value -/
 def replayStmt (now : Date) (sty : List SetAct) (v : Vals) (st : PStmt) (acc : Vals) : Vals :=
@@ -136,79 +269,60 @@ def replayStmt (now : Date) (sty : List SetAct) (v : Vals) (st : PStmt) (acc : V
 def replay (now : Date) (sty : List SetAct) (v : Vals) (ps : List PStmt) (acc : Vals) : Vals :=
   ps.foldl (fun a st => replayStmt now sty v st a) acc
 
+theorem alphaField_full (s : Bytes) (w : Nat) (h : s.length = w) (hw : w < maxGrow) : alphaField s w = s := by
+  rw [alphaField_fit _ _ (by omega) hw]; simp [h]
 
-theorem fieldAt_mem : ∀ (ws : List WField) (off : Nat) (f : WField), fieldAt ws off = some f → f ∈ ws
-  | [], _, _, h => by simp [fieldAt] at h
-  | g :: r, off, f, h => by
-    unfold fieldAt at h
-    by_cases h0 : off = 0
-    · simp only [h0, if_true, Option.some.injEq] at h
-      subst h; simp
-    · simp only [h0, if_false] at h
-      split at h
-      · exact List.mem_cons_of_mem _ (fieldAt_mem r _ f h)
-      · cases h
-
-theorem parseNum_blanks (w : Nat) : parseNum (blanks w) = 0 := by
-  unfold parseNum blanks
-  have := trimSpace_padded [] w 0 (Or.inl rfl)
-  simp only [List.append_nil, List.replicate_zero] at this
-  rw [this]
-  rfl
-
-theorem parseDate_blanks8 : parseDate (blanks 8) = Date.zero := by decide
-
-theorem Vals.assign_eq (acc : Vals) (dst : String) (k : PKind) (x : Bytes) :
-    acc.assign dst k x =
-      match k with
-      | .num => acc.setI dst (parseNum x)
-      | .str => acc.setS dst (parseStr x)
-      | .date => acc.setD dst (parseDate x)
-      | .time => acc.setT dst (parseTime x)
-      | .raw => acc.setS dst x
-      | .bytes => acc.setS dst x := by
-  cases k <;> rfl
+theorem varBytes_decodes (v acc : Vals) (src lf : String) (h : (v.s src).length = widthOfLen v lf) :
+    acc.assign src PKind.bytes
+      (match varWidth v lf with
+      | some n => alphaField (v.s src) n
+      | none => []) = acc.setS src (v.s src) := by
+  cases hvw : varWidth v lf with
+  | none =>
+    have h0 : (v.s src).length = 0 := by simpa [widthOfLen, hvw] using h
+    have hnil : v.s src = [] := List.eq_nil_of_length_eq_zero h0
+    simp only [Vals.assign, hnil]
+  | some n =>
+    have hn := varWidth_lt v lf n hvw
+    have hle : (v.s src).length = n := by simpa [widthOfLen, hvw] using h
+    simp only [Vals.assign, alphaField_full _ _ hle hn]
 
 /-- decoding the rendering of a canonical field gives the field back -/
-theorem assign_decodes (b64 : Bytes → Option Bytes) (now : Date) (sty : List SetAct) (f : WField) (v acc : Vals)
-    (k : PKind) (lo hi : Off) (dc : Bool) (hw : WfW f = true) (hk : pkOf f.conv = some k) (hc : CanonField f v) :
+theorem assign_decodes (b64 : Bytes → Option Bytes) (raws : List String) (now : Date) (sty : List SetAct) (f : WField) (v acc : Vals)
+    (k : PKind) (lo hi : Off) (dc : Bool) (hw : WfW f = true) (hk : compat raws f k = true) (hc : CanonField b64 raws f v) :
     acc.assign f.src k (renderField b64 f v) = replayStmt now sty v (.assign f.src lo hi k dc) acc := by
   unfold WfW at hw
   simp only [Bool.and_eq_true, decide_eq_true_eq] at hw
   obtain ⟨hwid, hshape⟩ := hw
   unfold CanonField at hc
   unfold renderField replayStmt
-  cases hcv : f.conv <;> simp only [hcv, pkOf, Option.some.injEq, reduceCtorEq] at hk hc hshape ⊢
-  · -- alpha
-    subst hk
+  cases hcv : f.conv <;> cases k <;> simp [hcv, compat] at hk hc hshape ⊢
+  · -- alpha / str
+    simp only [hk, Bool.false_eq_true, if_false] at hc
     simp only [Vals.assign, parseStr_alphaField _ _ hc.1 hc.2 hwid]
+  · -- alpha / raw
+    simp only [hk, if_true] at hc
+    simp only [Vals.assign, alphaField_full _ _ hc hwid]
   · -- numeric
-    subst hk
     simp only [Vals.assign, parseNum_numericField _ _ hc.1 hc.2.1 hc.2.2 hwid]
   · -- nbsm
-    subst hk
     simp only [Vals.assign, parseStr_nbsmField _ _ hc.1 hc.2 hwid]
   · -- zstr
-    subst hk
     have hz : zstrField (v.s f.src) f.width = v.s f.src := by
       rw [zstrField_fit _ _ (by omega) hwid]; simp [hc.2]
     have ht := trimSpace_padded (v.s f.src) 0 0 hc.1
     simp only [List.replicate_zero, List.nil_append, List.append_nil] at ht
     simp only [Vals.assign, hz, parseStr, ht]
   · -- date
-    subst hk
     simp only [Vals.assign, parseDate_fmtDate _ hc]
   · -- time
-    subst hk
     simp only [Vals.assign, parseTime_fmtTime _ hc.1 hc.2]
   · -- numericBlankNonPos
-    subst hk
     by_cases hz : v.i f.src ≤ 0
     · have h0 : v.i f.src = 0 := by omega
       simp [Vals.assign, parseNum_blanks, h0]
     · simp only [hz, if_false, Vals.assign, parseNum_numericField _ _ hc.1 hc.2.1 hc.2.2 hwid]
   · -- dateBlankZero
-    subst hk
     have hw8 : f.width = 8 := by simpa using hshape
     by_cases hz : (v.d f.src).isZero = true
     · have h0 : v.d f.src = Date.zero := by simpa [Date.isZero] using hz
@@ -216,72 +330,392 @@ theorem assign_decodes (b64 : Bytes → Option Bytes) (now : Date) (sty : List S
       simp [Vals.assign, hw8, parseDate_blanks8, h0, hzz]
     · have hz' : (v.d f.src).isZero = false := by simpa using hz
       simp [Vals.assign, hz', parseDate_fmtDate _ hc]
+  · -- alphaVar / str
+    cases hvw : varWidth v f.lenField with
+    | none =>
+      have h0 : (v.s f.src).length = 0 := by have := hc.2.2; simp [widthOfLen, hvw] at this; simp [this]
+      have hnil : v.s f.src = [] := List.eq_nil_of_length_eq_zero h0
+      simp only [Vals.assign, hnil]; rfl
+    | some n =>
+      have hn := varWidth_lt v f.lenField n hvw
+      have hle : (v.s f.src).length ≤ n := by have := hc.2.2; simpa [widthOfLen, hvw] using this
+      simp only [Vals.assign, parseStr_alphaField _ _ hc.2.1 hle hn]
+  · -- bytesVar
+    exact varBytes_decodes v acc f.src f.lenField hc.2
+  · -- image
+    simp only [hc.2.1]
+    exact varBytes_decodes v acc f.src f.lenField hc.2.2
 
-theorem Off.eval_const (c : Nat) (e : Env) : (Off.mk c []).eval e = (c : Int) := by
-  simp [Off.eval]
 
-/-- **parsing the rendering of a canonical record replays the record**: for a straight-line `Parse()`
-over the written columns, on the full-length rendering of a value whose fields are canonical -/
+/-! ### the static check of a `Parse()` body against the write table -/
+
+def lookupB : List (String × String) → String → Option String
+  | [], _ => none
+  | (k, f) :: r, var => if k = var then some f else lookupB r var
+
+def lookupAll (binds : List (String × String)) : List String → Option (List String)
+  | [] => some []
+  | x :: r =>
+    match lookupB binds x, lookupAll binds r with
+    | some a, some b => some (a :: b)
+    | _, _ => none
+
+/-- a slice bound of `Parse()` as a symbolic offset: its local variables replaced by the length members they hold -/
+def symOf (binds : List (String × String)) (o : Off) : Option SymOff :=
+  (lookupAll binds o.vars).map (fun ls => ⟨o.c, ls⟩)
+
+/-- the environment `Parse()` has built when the record decodes to `v` -/
+def envOf (v : Vals) (binds : List (String × String)) : Env := binds.map (fun p => (p.1, parseNum (v.s p.2)))
+
+theorem envOf_get (v : Vals) (binds : List (String × String)) (var : String) :
+    (envOf v binds).get var = match lookupB binds var with | some lf => parseNum (v.s lf) | none => 0 := by
+  induction binds with
+  | nil => simp [envOf, Env.get, lookupB]
+  | cons p r ih =>
+    obtain ⟨k, f⟩ := p
+    simp only [envOf, List.map_cons, Env.get, lookupB]
+    by_cases hk : k = var
+    · simp [hk]
+    · simp only [hk, if_false]; exact ih
+
+theorem foldl_get (v : Vals) (binds : List (String × String)) :
+    ∀ (vars ls : List String) (a : Int), lookupAll binds vars = some ls → (∀ lf ∈ ls, LenOK v lf) →
+      vars.foldl (fun acc k => acc + (envOf v binds).get k) a = a + (sumW v ls : Int)
+  | [], ls, a, h, _ => by
+    simp only [lookupAll, Option.some.injEq] at h
+    subst h; simp [sumW]
+  | x :: r, ls, a, h, hl => by
+    simp only [lookupAll] at h
+    cases hx : lookupB binds x with
+    | none => simp [hx] at h
+    | some lf =>
+      cases hr : lookupAll binds r with
+      | none => simp [hx, hr] at h
+      | some ls' =>
+        simp only [hx, hr, Option.some.injEq] at h
+        subst h
+        have ih := foldl_get v binds r ls' (a + (envOf v binds).get x) hr (fun y hy => hl y (by simp [hy]))
+        have hg : (envOf v binds).get x = parseNum (v.s lf) := by rw [envOf_get, hx]
+        rw [List.foldl_cons, ih, hg, ← widthOfLen_of_lenOK v lf (hl lf (by simp))]
+        simp only [sumW]
+        omega
+
+theorem eval_sym (v : Vals) (binds : List (String × String)) (o : Off) (so : SymOff) (h : symOf binds o = some so)
+    (hl : ∀ lf ∈ so.lens, LenOK v lf) : o.eval (envOf v binds) = (so.val v : Int) := by
+  unfold symOf at h
+  cases hx : lookupAll binds o.vars with
+  | none => simp [hx] at h
+  | some ls =>
+    simp only [hx, Option.map_some, Option.some.injEq] at h
+    subst h
+    simp only [Off.eval, SymOff.val]
+    rw [foldl_get v binds o.vars ls _ hx hl]
+    omega
+
+structure PSt where
+  binds : List (String × String) := []
+  assigned : List String := []
+
+def isStrKind : PKind → Bool
+  | .str | .raw | .bytes => true
+  | _ => false
+
+def varLens (ws : List WField) : List String := (ws.filter (fun f => isVarConv f.conv)).map (·.lenField)
+
+/-- one statement of `Parse()` checked against the write table `ws`: guards that the full rendering passes,
+and every assignment decoding, with a decoder that inverts the getter, exactly the span of the written field
+of the same member; `none` = not of that shape -/
+def stmtStep (ws : List WField) (raws : List String) (st : PStmt) (σ : PSt) : Option PSt :=
+  let sp := spans ws ⟨0, []⟩
+  let E := endOff ws ⟨0, []⟩
+  match st with
+  | .guardRunes ne n => if (if ne then E.lens.isEmpty && n == E.c else decide (n ≤ E.c)) then some σ else none
+  | .guardBytes n => if n ≤ E.c then some σ else none
+  | .guardVar _ var le0 off =>
+    match lookupB σ.binds var, symOf σ.binds off with
+    | some lf, some so =>
+      if !le0 && (varLens ws).contains lf && sp.any (fun p => p.1.next p.2 == so) then some σ else none
+    | _, _ => none
+  | .bind var field => if σ.assigned.contains field then some { σ with binds := (var, field) :: σ.binds } else none
+  | .assign dst lo hi k _ =>
+    match symOf σ.binds lo, symOf σ.binds hi with
+    | some slo, some shi =>
+      match sp.find? (fun p => p.1 == slo) with
+      | some (o, f) =>
+        if f.src == dst && shi == o.next f && compat raws f k then
+          some { σ with assigned := if isStrKind k then dst :: σ.assigned else σ.assigned }
+        else none
+      | none => none
+    | _, _ => none
+  | .lit dst _ => if σ.assigned.contains dst then none else some σ
+  | .setType => if σ.assigned.isEmpty then some σ else none
+  | .opaque => none
+
+def stmtsOK (ws : List WField) (raws : List String) : List PStmt → PSt → Bool
+  | [], _ => true
+  | st :: r, σ =>
+    match stmtStep ws raws st σ with
+    | some σ' => stmtsOK ws raws r σ'
+    | none => false
+
+/-- string members `Parse()` stores without trimming -/
+def rawDsts (ps : List PStmt) : List String :=
+  ps.filterMap (fun st => match st with | .assign dst _ _ .raw _ => some dst | _ => none)
+
+def usesRunes : PStmt → Bool
+  | .guardRunes _ _ => true
+  | .guardVar false _ _ _ => true
+  | _ => false
+
+/-- the regenerated `Parse()` of a layout is straight-line over the columns its `String()` writes -/
+def LayoutOK (L : RecLayout) : Bool :=
+  AllWf L.write && stmtsOK L.write (rawDsts L.parse) L.parse {}
+
+theorem varLens_mem (ws : List WField) (lf : String) (h : (varLens ws).contains lf = true) :
+    ∃ g ∈ ws, isVarConv g.conv = true ∧ g.lenField = lf := by
+  simp only [varLens, List.contains_iff_mem, List.mem_map, List.mem_filter] at h
+  obtain ⟨g, ⟨hg, hv⟩, hl⟩ := h
+  exact ⟨g, hg, hv, hl⟩
+
+theorem endOff_lens_val (v : Vals) (o : SymOff) (h : o.lens.isEmpty = true) : o.val v = o.c := by
+  have : o.lens = [] := List.isEmpty_iff.1 h
+  simp [SymOff.val, this, sumW]
+
+
+theorem ite_some_eq {α : Type} {c : Prop} [Decidable c] {a b : α} (h : (if c then some a else none) = some b) : c ∧ a = b := by
+  by_cases hc : c <;> simp_all
+
+theorem ite_none_eq {α : Type} {c : Prop} [Decidable c] {a b : α} (h : (if c then none else some a) = some b) : ¬ c ∧ a = b := by
+  by_cases hc : c <;> simp_all
+
+/-- members a `Parse()` body decodes from the record -/
+def assignDsts (ps : List PStmt) : List String :=
+  ps.filterMap (fun st => match st with | .assign dst _ _ _ _ => some dst | _ => none)
+
+/-- the fields whose values matter for the round trip: variable sections, and members `Parse()` decodes
+(a written member `Parse()` sets to a constant - blank `reserved` columns - may hold anything) -/
+def Relevant (dsts : List String) (f : WField) : Prop := isVarConv f.conv = true ∨ f.src ∈ dsts
+
+theorem lenIsSym_of_fixed (b64 : Bytes → Option Bytes) (f : WField) (v : Vals) (h : isVarConv f.conv = false) :
+    LenIsSym b64 f v := by
+  unfold LenIsSym lenOf
+  cases hc : f.conv <;> simp [hc, isVarConv] at h ⊢
+
+theorem lenIsSym_all (b64 : Bytes → Option Bytes) (raws dsts : List String) (ws : List WField) (v : Vals)
+    (hcanon : ∀ f ∈ ws, Relevant dsts f → CanonField b64 raws f v) : ∀ g ∈ ws, LenIsSym b64 g v := by
+  intro g hg
+  cases hv : isVarConv g.conv
+  · exact lenIsSym_of_fixed b64 g v hv
+  · exact canon_lenIsSym b64 raws g v (hcanon g hg (Or.inl hv))
+
+theorem spans_var_lenOK (b64 : Bytes → Option Bytes) (raws dsts : List String) (ws : List WField) (v : Vals)
+    (hcanon : ∀ f ∈ ws, Relevant dsts f → CanonField b64 raws f v) (o : SymOff) (f : WField) (h : (o, f) ∈ spans ws ⟨0, []⟩) :
+    (∀ lf ∈ o.lens, LenOK v lf) ∧ (∀ lf ∈ (o.next f).lens, LenOK v lf) := by
+  obtain ⟨h1, h2⟩ := spans_lens ws ⟨0, []⟩ o f h
+  refine ⟨fun lf hlf => ?_, fun lf hlf => ?_⟩
+  · rcases h1 lf hlf with hx | ⟨g, hg, hv, hl⟩
+    · simp at hx
+    · rw [← hl]; exact canon_lenOK b64 raws g v (hcanon g hg (Or.inl hv)) hv
+  · rcases h2 lf hlf with hx | ⟨g, hg, hv, hl⟩
+    · simp at hx
+    · rw [← hl]; exact canon_lenOK b64 raws g v (hcanon g hg (Or.inl hv)) hv
+
+/-- **parsing the rendering of a canonical record replays the record**: for a `Parse()` that passes the
+static check against the write table, on the rendering of a value whose fields are canonical -/
 theorem parse_render (b64 : Bytes → Option Bytes) (now : Date) (sty : List SetAct) (ws : List WField) (v : Vals)
-    (hwf : AllWf ws = true) (hfx : AllFixed ws = true) (ht : TypeSet v)
-    (hcanon : ∀ f ∈ ws, CanonField f v)
-    (hrunes : runeCount (render b64 ws true v) = fixedWidth ws) :
-    ∀ (ps : List PStmt) (e : Env) (acc : Vals), ps.all (stmtOK ws (fixedWidth ws)) = true →
-      parseStmts id now sty (render b64 ws true v) ps e acc = .done (replay now sty v ps acc)
-  | [], e, acc, _ => by simp [parseStmts, replay]
-  | st :: rest, e, acc, hok => by
-    simp only [List.all_cons, Bool.and_eq_true] at hok
-    obtain ⟨h1, hrest⟩ := hok
-    have hlen : (render b64 ws true v).length = fixedWidth ws := render_length_fixed b64 ws true v hwf hfx ht
-    have ih := fun e' acc' => parse_render b64 now sty ws v hwf hfx ht hcanon hrunes rest e' acc' hrest
-    cases st with
-    | guardRunes ne n =>
-      simp only [stmtOK] at h1
-      simp only [parseStmts, hrunes]
-      have : ¬ (if ne = true then fixedWidth ws ≠ n else fixedWidth ws < n) := by
-        cases ne with
-        | true => simp only [if_true] at h1 ⊢; simp at h1; omega
-        | false => simp only [Bool.false_eq_true, if_false] at h1 ⊢; simp at h1; omega
-      simp only [this, if_false]
-      rw [ih]; simp [replay, replayStmt]
-    | guardBytes n =>
-      simp only [stmtOK, decide_eq_true_eq] at h1
-      simp only [parseStmts, hlen]
-      have : ¬ (fixedWidth ws < n) := by omega
-      simp only [this, if_false]
-      rw [ih]; simp [replay, replayStmt]
-    | setType =>
-      simp only [parseStmts]
-      rw [ih]; simp [replay, replayStmt]
-    | lit dst b =>
-      simp only [parseStmts]
-      rw [ih]; simp [replay, replayStmt]
-    | assign dst lo hi k dc =>
-      simp only [stmtOK, Bool.and_eq_true, List.isEmpty_iff] at h1
-      obtain ⟨⟨hlo, hhi⟩, hf⟩ := h1
-      cases hfa : fieldAt ws lo.c with
-      | none => simp [hfa] at hf
-      | some f =>
-        simp only [hfa, Bool.and_eq_true, beq_iff_eq] at hf
-        obtain ⟨⟨hsrc, hhic⟩, hpk⟩ := hf
-        have hmem := fieldAt_mem ws lo.c f hfa
-        have hwfF : WfW f = true := by
-          simp only [AllWf, List.all_eq_true] at hwf; exact hwf f hmem
-        have hsl := slice_fieldAt b64 v ht ws lo.c f hwf hfx hfa
-        have elo : lo.eval e = (lo.c : Int) := by
-          cases lo with
-          | mk c vars => simp only at hlo; subst hlo; exact Off.eval_const c e
-        have ehi : hi.eval e = ((lo.c + f.width : Nat) : Int) := by
-          cases hi with
-          | mk c vars => simp only at hhi hhic; subst hhi; subst hhic; exact Off.eval_const _ e
-        simp only [parseStmts, elo, ehi, hsl]
-        rw [ih]
-        have hd : (if dc = true then id (renderField b64 f v) else renderField b64 f v) = renderField b64 f v := by
-          cases dc <;> rfl
-        rw [hd, ← hsrc, assign_decodes b64 now sty f v acc k lo hi dc hwfF hpk (hcanon f hmem)]
-        simp [replay]
-    | guardVar _ _ _ _ => simp [stmtOK] at h1
-    | bind _ _ => simp [stmtOK] at h1
-    | «opaque» => simp [stmtOK] at h1
+    (raws dsts : List String) (hwf : AllWf ws = true) (ht : TypeSet v)
+    (hcanon : ∀ f ∈ ws, Relevant dsts f → CanonField b64 raws f v) :
+    ∀ (ps : List PStmt) (σ : PSt) (acc : Vals),
+      (∀ d ∈ assignDsts ps, d ∈ dsts) →
+      (∀ st ∈ ps, usesRunes st = true → runeCount (render b64 ws true v) = (render b64 ws true v).length) →
+      (∀ d ∈ σ.assigned, acc.s d = v.s d) →
+      stmtsOK ws raws ps σ = true →
+      parseStmts id now sty (render b64 ws true v) ps (envOf v σ.binds) acc = .done (replay now sty v ps acc)
+  | [], σ, acc, _, _, _, _ => by simp [parseStmts, replay]
+  | st :: rest, σ, acc, hds, hr, hag, hok => by
+    have hsym : ∀ g ∈ ws, LenIsSym b64 g v := lenIsSym_all b64 raws dsts ws v hcanon
+    have hE := endOff_val b64 v ht ws ⟨0, []⟩ hwf hsym
+    have hE0 : (⟨0, []⟩ : SymOff).val v = 0 := by simp [SymOff.val, sumW]
+    have hEc : (endOff ws ⟨0, []⟩).c ≤ (render b64 ws true v).length := by
+      rw [hE0, Nat.zero_add] at hE
+      rw [← hE]; unfold SymOff.val; omega
+    simp only [stmtsOK] at hok
+    cases hstep : stmtStep ws raws st σ with
+    | none => simp [hstep] at hok
+    | some σ' =>
+      simp only [hstep] at hok
+      have hds' : ∀ d ∈ assignDsts rest, d ∈ dsts := by
+        intro d hd
+        apply hds d
+        unfold assignDsts at hd ⊢
+        rw [List.filterMap_cons]
+        split
+        · exact hd
+        · exact List.mem_cons_of_mem _ hd
+      have ih := fun acc' hag' => parse_render b64 now sty ws v raws dsts hwf ht hcanon rest σ' acc' hds'
+        (fun x hx => hr x (by simp [hx])) hag' hok
+      cases st with
+      | guardRunes ne n =>
+        have hrn := hr (.guardRunes ne n) (by simp) rfl
+        simp only [stmtStep] at hstep
+        · obtain ⟨hc, hstep⟩ := ite_some_eq hstep
+          subst hstep
+          simp only [parseStmts, hrn]
+          have : ¬ (if ne = true then (render b64 ws true v).length ≠ n else (render b64 ws true v).length < n) := by
+            cases ne with
+            | true =>
+              simp only [if_true, Bool.and_eq_true, beq_iff_eq] at hc ⊢
+              have := endOff_lens_val v _ hc.1
+              rw [hE0, Nat.zero_add] at hE
+              omega
+            | false =>
+              simp only [Bool.false_eq_true, if_false, decide_eq_true_eq] at hc ⊢
+              omega
+          simp only [this, if_false]
+          rw [ih acc hag]; simp [replay, replayStmt]
+      | guardBytes n =>
+        simp only [stmtStep] at hstep
+        · obtain ⟨hc, hstep⟩ := ite_some_eq hstep
+          subst hstep
+          simp only [parseStmts]
+          have : ¬ ((render b64 ws true v).length < n) := by omega
+          simp only [this, if_false]
+          rw [ih acc hag]; simp [replay, replayStmt]
+      | guardVar bytes var le0 off =>
+        simp only [stmtStep] at hstep
+        cases hlv : lookupB σ.binds var with
+        | none => simp [hlv] at hstep
+        | some lf =>
+          cases hso : symOf σ.binds off with
+          | none => simp [hlv, hso] at hstep
+          | some so =>
+            simp only [hlv, hso] at hstep
+            · obtain ⟨hc, hstep⟩ := ite_some_eq hstep
+              subst hstep
+              simp only [Bool.and_eq_true, Bool.not_eq_true', List.any_eq_true] at hc
+              obtain ⟨⟨hle0, hvl⟩, ⟨p, hp, hpe⟩⟩ := hc
+              obtain ⟨g, hg, hgv, hgl⟩ := varLens_mem ws lf hvl
+              have hlok : LenOK v lf := by rw [← hgl]; exact canon_lenOK b64 raws g v (hcanon g hg (Or.inl hgv)) hgv
+              have hpe' : p.1.next p.2 = so := by simpa using hpe
+              obtain ⟨pre, post, h1, h2, h3⟩ := span_split b64 v ht ws ⟨0, []⟩ p.1 p.2 hwf hsym hp
+              have hlens := (spans_var_lenOK b64 raws dsts ws v hcanon p.1 p.2 hp).2
+              rw [hpe'] at hlens h3
+              have hev := eval_sym v σ.binds off so hso hlens
+              have hx : (envOf v σ.binds).get var = parseNum (v.s lf) := by rw [envOf_get, hlv]
+              have hlen : so.val v ≤ (render b64 ws true v).length := by
+                rw [h1, h3]; simp only [List.length_append]; rw [hE0] at h2; omega
+              have hcnt : (if bytes = true then ((render b64 ws true v).length : Int) else (runeCount (render b64 ws true v) : Int)) =
+                  ((render b64 ws true v).length : Int) := by
+                cases bytes with
+                | true => rfl
+                | false =>
+                  have := hr (.guardVar false var le0 off) (by simp) rfl
+                  simp [this]
+              simp only [parseStmts, hx, hev, hcnt, hle0, Bool.false_eq_true, if_false]
+              have : ¬ (parseNum (v.s lf) < 0 ∨ ((render b64 ws true v).length : Int) < (so.val v : Int)) := by
+                have := hlok.1; omega
+              simp only [this, if_false]
+              rw [ih acc hag]; simp [replay, replayStmt]
+      | bind var field =>
+        simp only [stmtStep] at hstep
+        · obtain ⟨hc, hstep⟩ := ite_some_eq hstep
+          subst hstep
+          have hf : acc.s field = v.s field := hag field (by simpa using hc)
+          simp only [parseStmts, hf]
+          have := ih acc hag
+          simp only [envOf, List.map_cons] at this ⊢
+          rw [this]; simp [replay, replayStmt]
+      | assign dst lo hi k dc =>
+        simp only [stmtStep] at hstep
+        cases hlo : symOf σ.binds lo with
+        | none => simp [hlo] at hstep
+        | some slo =>
+          cases hhi : symOf σ.binds hi with
+          | none => simp [hlo, hhi] at hstep
+          | some shi =>
+            simp only [hlo, hhi] at hstep
+            cases hfind : (spans ws ⟨0, []⟩).find? (fun p => p.1 == slo) with
+            | none => simp [hfind] at hstep
+            | some p =>
+              obtain ⟨o, f⟩ := p
+              simp only [hfind] at hstep
+              · obtain ⟨hc, hstep⟩ := ite_some_eq hstep
+                subst hstep
+                simp only [Bool.and_eq_true, beq_iff_eq] at hc
+                obtain ⟨⟨hsrc, hshi⟩, hcompat⟩ := hc
+                have hmem : (o, f) ∈ spans ws ⟨0, []⟩ := List.mem_of_find?_eq_some hfind
+                have hoe : o = slo := by
+                  have := List.find?_some hfind
+                  simpa using this
+                have hfw : f ∈ ws := by
+                  have : ∀ (ws : List WField) (o0 : SymOff), (o, f) ∈ spans ws o0 → f ∈ ws := by
+                    intro ws
+                    induction ws with
+                    | nil => intro o0 h; simp [spans] at h
+                    | cons g r ihh =>
+                      intro o0 h
+                      simp only [spans, List.mem_cons, Prod.mk.injEq] at h
+                      rcases h with ⟨_, hf⟩ | h
+                      · simp [hf]
+                      · exact List.mem_cons_of_mem _ (ihh _ h)
+                  exact this ws _ hmem
+                have hwfF : WfW f = true := by
+                  simp only [AllWf, List.all_eq_true] at hwf; exact hwf f hfw
+                obtain ⟨pre, post, h1, h2, h3⟩ := span_split b64 v ht ws ⟨0, []⟩ o f hwf hsym hmem
+                obtain ⟨hl1, hl2⟩ := spans_var_lenOK b64 raws dsts ws v hcanon o f hmem
+                have hdst : dst ∈ dsts := hds dst (by simp [assignDsts])
+                have elo : lo.eval (envOf v σ.binds) = (pre.length : Int) := by
+                  rw [eval_sym v σ.binds lo slo hlo (by rw [← hoe]; exact hl1), ← hoe]
+                  rw [hE0] at h2; omega
+                have ehi : hi.eval (envOf v σ.binds) = ((pre.length + (renderField b64 f v).length : Nat) : Int) := by
+                  rw [eval_sym v σ.binds hi shi hhi (by rw [hshi]; exact hl2), hshi, h3]
+                  rw [hE0] at h2; omega
+                have hsl : slice? (render b64 ws true v) (lo.eval (envOf v σ.binds)) (hi.eval (envOf v σ.binds)) =
+                    some (renderField b64 f v) := by
+                  rw [elo, ehi, h1]; exact slice?_mid pre _ post
+                simp only [parseStmts, hsl]
+                have hd : (if dc = true then id (renderField b64 f v) else renderField b64 f v) = renderField b64 f v := by
+                  cases dc <;> rfl
+                rw [hd, ← hsrc, assign_decodes b64 raws now sty f v acc k lo hi dc hwfF hcompat (hcanon f hfw (Or.inr (hsrc ▸ hdst)))]
+                rw [ih]
+                · simp [replay]
+                · intro d hd
+                  cases k <;> simp only [isStrKind, if_true, Bool.false_eq_true, if_false, List.mem_cons] at hd <;>
+                    simp only [replayStmt, Vals.setS, Vals.setI, Vals.setD, Vals.setT]
+                  · exact hag d hd
+                  · by_cases hdd : d = f.src
+                    · simp [hdd]
+                    · simp only [hdd, if_false]; exact hag d (by rcases hd with h | h; exact absurd (hsrc ▸ h) hdd; exact h)
+                  · exact hag d hd
+                  · exact hag d hd
+                  · by_cases hdd : d = f.src
+                    · simp [hdd]
+                    · simp only [hdd, if_false]; exact hag d (by rcases hd with h | h; exact absurd (hsrc ▸ h) hdd; exact h)
+                  · by_cases hdd : d = f.src
+                    · simp [hdd]
+                    · simp only [hdd, if_false]; exact hag d (by rcases hd with h | h; exact absurd (hsrc ▸ h) hdd; exact h)
+      | lit dst b =>
+        simp only [stmtStep] at hstep
+        · obtain ⟨hc, hstep⟩ := ite_none_eq hstep
+          subst hstep
+          simp only [parseStmts]
+          rw [ih]
+          · simp [replay, replayStmt]
+          · intro d hd
+            have : d ≠ dst := by
+              intro h; subst h
+              exact hc (by simpa using hd)
+            simp only [Vals.setS, this, if_false]; exact hag d hd
+      | setType =>
+        simp only [stmtStep] at hstep
+        · obtain ⟨hc, hstep⟩ := ite_some_eq hstep
+          subst hstep
+          simp only [parseStmts]
+          rw [ih]
+          · simp [replay, replayStmt]
+          · intro d hd
+            have : σ.assigned = [] := List.isEmpty_iff.1 hc
+            rw [this] at hd; cases hd
+      | «opaque» => simp [stmtStep] at hstep
 
 end Icl
